@@ -46,6 +46,53 @@ def run(ctx) -> None:
     c03.original_reads(ctx, "C05.R8")
     r.floor("C05.R8", 2)
     r10_renderers_are_pure(ctx)
+    r11_slices(ctx)
+
+
+def r11_slices(ctx) -> None:
+    """The converters strip the wildcards at the edges of a value by slicing it ([1:], [:-1], [1:-1]) before they render
+    the rest. A slice is the same elements — characters of the string parts, wildcard parts — in the same order."""
+    from .standins import string_standin
+    r, prog = ctx.r, ctx.prog
+    r.rule("C05.R11", "slicing a Sigma string selects elements (characters, wildcard parts) by position: SigmaString.__getitem__ interpreted on stand-in strings for the edge-stripping slices and some inner ones against the slice of the element sequence")
+    f = prog.lookup_method("sigma.types.SigmaString", "__getitem__")
+    if f is None:
+        raise AnalysisError("anchor vanished: sigma.types.SigmaString.__getitem__")
+    Str, _Cased, _PH, sc, _env = string_standin(ctx)
+    M, S1 = sc.WILDCARD_MULTI, sc.WILDCARD_SINGLE
+    samples = [["abc"], ["abc", M], [M, "abc"], [M, "abc", M], ["ab"], ["a"], [M], [M, M], ["a", M, "b"], ["ab", S1, "cd", M], [M, "a", S1], ["a*b", M], []]
+    slices = [slice(1, None), slice(None, -1), slice(1, -1), slice(0, 2), slice(2, None), slice(None, None), slice(1, 3)]
+
+    def elements(parts):
+        out = []
+        for p_ in parts:
+            if isinstance(p_, str):
+                out.extend(p_)
+            else:
+                out.append(p_)
+        return out
+
+    wrong = []
+    n = 0
+    for parts in samples:
+        for sl in slices:
+            n += 1
+            want = elements(parts)[sl]
+            try:
+                got = Str(list(parts)).call("__getitem__", sl)
+                got_el = elements(got.s) if hasattr(got, "s") else repr(got)
+            except Raised as ex:
+                # the source refuses some slices (empty results, steps): accept a refusal only where nothing is selected
+                ln = len(elements(parts))
+                beyond = any(b is not None and abs(b) > ln for b in (sl.start, sl.stop))
+                got_el = want if (not want or beyond) else f"<raises {ex}>"   # positions outside the value may be refused
+            if got_el != want:
+                wrong.append(f"{parts}[{sl.start}:{sl.stop}] gives {got_el}, the elements selected are {want}")
+    if wrong:
+        r.violation("C05.R11", f.qual, f"slice table: {wrong[0]}", f"{len(wrong)} of {n} interpreted slices deviate: the value the converters render after stripping an edge wildcard is not the rest of the value", f.loc)
+    else:
+        r.ok("C05.R11", f.qual, f"{n} slices of {len(samples)} stand-in strings select exactly the elements at those positions", f.loc)
+    r.floor("C05.R11", 1)
 
 
 RENDERERS = ("sigma.types.SigmaString.convert", "sigma.types.SigmaString.to_regex", "sigma.types.SigmaString.to_plain", "sigma.types.SigmaString.__str__",
